@@ -20,12 +20,20 @@ Variable content : string -> body.
 
 Definition ref_has_ext (u : string) : bool := ends_with_s u ".scss" || ends_with_s u ".css".
 
-(* the file a load denotes: first existing documented candidate next to the importing file *)
-Definition ref_resolve (importer : string) (k : kind) (u : string) : option string :=
-  let url := fst (split_dir importer) ++ u in
+(* the file a load denotes: the first existing documented candidate next to the importing file;
+   failing that, the url unchanged in the base directory (the only load path of these worlds) *)
+Definition ref_resolve_at (dir : string) (k : kind) (u : string) : option string :=
+  let url := dir ++ u in
   if ref_has_ext url then fs_isfile files url
   else let (b, n) := split_dir url in
        first_some (fun c => fs_isfile files (spec_name b n c)) (spec_cands (is_import k)).
+
+Definition ref_resolve (importer : string) (k : kind) (u : string) : option string :=
+  let dir := fst (split_dir importer) in
+  match ref_resolve_at dir k u with
+  | Some f => Some f
+  | None => if String.eqb dir "" then None else ref_resolve_at "" k u
+  end.
 
 (* a frame of the load stack: the file and the load (kind, url as spelled) that entered it *)
 Definition frame : Type := (string * kind * string)%type.
